@@ -34,6 +34,13 @@ Histories (spec/GridHistory.tla, MC_GridHistory.tla, EX_GridHistory.tla, Trace_G
       native computation of a fresh model at those points.  TLC-generated set/eval walks (harness/history.py) change
       the request, the temperature and a mixing ratio of one long-lived model; every evaluation equals a freshly
       built model's and is a trace event whose clip TLC re-evaluates (Trace_GridHistory.tla, + canaries).
+Entry points (round 3): "a model spectrum" is what ANY evaluating entry point returns -- model(), model_contrib() (one
+      spectrum per contribution), model_full_contrib() (one per component).  GridHistory.tla carries the entry point as
+      a second coordinate of the request, the contribution list of the long-lived object as state and a request that is
+      REFUSED (no native point in reach); 10 slips of an entry point are refuted (clip arguments exchanged, cutoff flag
+      ignored, contribution list left changed after a served / a refused per-component evaluation).  The exported
+      behaviours carry every sequence of entry points, the walks change the entry point between evaluations, the
+      model-level runs of binding A compare and bin every spectrum of every entry point.
 """
 import random
 import re
